@@ -1,1 +1,102 @@
-From C31 Require Import Gen Model ModelSpec.
+(* C31/Properties.v — property C31: block request planning and serving cover exactly the
+   requested range.  Only statements, each closed by `exact <lemma>`, Print Assumptions beneath. *)
+From Coq Require Import NArith ZArith List Bool Lia.
+From Common Require Import Outcome.
+From C31 Require Import Gen Model ModelSpec ProofsPlan ProofsStore ProofsServe.
+Import ListNotations.
+Local Open Scope N_scope.
+
+(* Planning.  For every range a <= b of 64-bit heights (b - a + 1 itself representable, i.e. not
+   the whole 2^64 range), the requests NewAscendingBlockRequests(a, b) plans
+   - tile [a, b]: read in order, each request starts where the previous one ended, the first at a,
+     the last ends at b (plan_ok_b, the predicate the driver evaluates on the Go output);
+   - hence their heights, concatenated, are exactly a, a+1, ..., b: every height once, ascending;
+   - every request asks for between 1 and max_resp (= MaxBlocksInResponse = 128) blocks;
+   - the start numbers strictly increase. *)
+Theorem C31_plan_partition : forall a b, a <= b -> b < two64 -> b - a + 1 < two64 ->
+  let p := plan a b in
+     plan_ok_b a b p = true
+  /\ concat (map heights p) = nseq a (N.to_nat (b - a + 1))
+  /\ Forall (fun r => 1 <= snd r <= max_resp) p
+  /\ (forall i j si sj, (i < j)%nat -> nth_error (map fst p) i = Some si ->
+        nth_error (map fst p) j = Some sj -> si < sj).
+Proof.
+  intros a b H1 H2 H3 p. pose proof (plan_tiles a b H1 H2 H3) as T. fold p in T.
+  unfold plan_ok_b in T. destruct (tiles_heights _ _ _ T) as (_ & C & F).
+  repeat split; auto.
+  - rewrite C. f_equal. lia.
+  - exact (tiles_starts_increase _ _ _ T).
+Qed.
+Print Assumptions C31_plan_partition.
+
+Theorem C31_plan_empty : forall a b, b < a -> plan a b = [].
+Proof. intros a b H. unfold plan. apply N.ltb_lt in H. now rewrite H. Qed.
+Print Assumptions C31_plan_empty.
+
+(* Serving.  For every well-formed chain store (any tree of blocks with forks, any best block),
+   every request (by number or hash, either direction, any max, any field mask) and any number of
+   earlier identical requests: if CreateBlockResponse answers with a response at all, the response
+   satisfies serve_spec_b: a gap-free parent-linked chain of stored blocks in the requested
+   direction, beginning with the requested block, of length
+   min(requested max, 128, blocks available in that direction), every block with exactly the
+   requested fields the store has. *)
+Theorem C31_serve : forall s req seen resp,
+  indexed s -> wf_store_b s = true ->
+  serve s req seen = Ok resp -> serve_spec_b s req resp = true.
+Proof. exact serve_correct. Qed.
+Print Assumptions C31_serve.
+
+(* the stores the driver builds are indexed *)
+Theorem C31_mkstore_indexed : forall l best, indexed (mkstore l best).
+Proof. intros. reflexivity. Qed.
+Print Assumptions C31_mkstore_indexed.
+
+(* ---- non-vacuity *)
+Example C31_plan_example :
+  plan 1 259 = [(1, 128); (129, 128); (257, 3)] /\ plan 0 127 = [(0, 128)] /\ plan 5 5 = [(5, 1)]
+  /\ plan 0 128 = [(0, 128); (128, 1)].
+Proof. vm_compute. repeat split; reflexivity. Qed.
+
+(* genesis 0; best chain 1-2-3-4; a fork 5-6 on block 1 *)
+Definition ex_store : store :=
+  mkstore [ mkblk 0 99 0 3; mkblk 1 0 1 3; mkblk 2 1 2 7; mkblk 3 2 3 3; mkblk 4 3 4 19;
+            mkblk 5 1 2 3; mkblk 6 5 3 3 ] 4.
+
+Example C31_serve_example :
+  wf_store_b ex_store = true
+  /\ serve ex_store (mkreq 19 (FromNum 2) 0 None) 0 = Ok [mkbd 2 3; mkbd 3 3; mkbd 4 19]
+  /\ serve ex_store (mkreq 1 (FromNum 9) 1 (Some 2)) 0 = Ok [mkbd 4 1; mkbd 3 1]
+  /\ serve ex_store (mkreq 1 (FromHash 5) 0 None) 0 = Err E_NODESC
+  /\ serve ex_store (mkreq 5 (FromHash 4) 1 (Some 3)) 0 = Ok [mkbd 4 1; mkbd 3 1; mkbd 2 5]
+  /\ serve ex_store (mkreq 1 (FromHash 6) 1 None) 0 = Ok [mkbd 6 1; mkbd 5 1; mkbd 1 1]
+  /\ serve ex_store (mkreq 1 (FromHash 6) 1 (Some 2)) 0 = Err E_RANGE
+  /\ serve ex_store (mkreq 1 (FromNum 1) 0 None) 3 = Err E_SAME.
+Proof. vm_compute. repeat split; reflexivity. Qed.
+
+(* ---- the pinned tree (before fixes/C31-descending-end-off-by-one.patch and the BlockTree.Range
+   repair) violated the property: *)
+
+(* descending by number from block 2 with Max = 1 returned blocks 2 and 1 *)
+Theorem C31_descending_off_by_one_refuted :
+  exists s req resp, wf_store_b s = true /\ indexed s /\
+    serve_prefix s req 0 = Ok resp /\ serve_spec_b s req resp = false
+    /\ guard_desc_off_by_one s req = true.
+Proof.
+  exists ex_store, (mkreq 1 (FromNum 2) 1 (Some 1)), [mkbd 2 1; mkbd 1 1].
+  vm_compute. repeat split; reflexivity.
+Qed.
+Print Assumptions C31_descending_off_by_one_refuted.
+
+(* genesis has two children 1 and 3, with children 2 and 4; 2 is the best block.  Descending by
+   hash from block 4 returned 4 followed by block 1 of the best chain, which is not 4's parent *)
+Definition ex_store2 : store :=
+  mkstore [ mkblk 0 99 0 3; mkblk 1 0 1 3; mkblk 2 1 2 3; mkblk 3 0 1 3; mkblk 4 3 2 3 ] 2.
+
+Theorem C31_descending_fork_refuted :
+  exists s req resp, wf_store_b s = true /\ indexed s /\
+    serve_prefix s req 0 = Ok resp /\ serve_spec_b s req resp = false.
+Proof.
+  exists ex_store2, (mkreq 1 (FromHash 4) 1 None), [mkbd 4 1; mkbd 1 1].
+  vm_compute. repeat split; reflexivity.
+Qed.
+Print Assumptions C31_descending_fork_refuted.
